@@ -127,7 +127,12 @@ func oneCase(o *out.W, r *rng.R, i int) {
 			sz := math.Min(W, H) * float64(r.Range(3, 6)) / 8
 			cx, cy := W/2+float64(r.Range(-8, 8))/4, H/2+float64(r.Range(-8, 8))/4
 			p := &canvas.Path{}
-			switch r.Intn(3) {
+			switch r.Intn(4) {
+			case 3: // a pie slice: one arc that is not part of a full ellipse (a wrong sweep makes it bulge to the other side)
+				p.MoveTo(0, 0)
+				p.LineTo(sz/2, 0)
+				p.ArcTo(sz/2, sz/2*rng.Pick(r, []float64{1, 0.75}), 0, r.P(1, 4), true, 0, sz/2*0.75)
+				p.Close()
 			case 0:
 				p.MoveTo(0, -sz/2)
 				p.CubeTo(sz, sz, -sz, sz, 0, -sz/2)
@@ -145,7 +150,8 @@ func oneCase(o *out.W, r *rng.R, i int) {
 			if r.Bool() {
 				p = p.Reverse()
 			}
-			a := rng.Pick(r, [][4]float64{{1, 0, 0, 1}, {0, -1, 1, 0}, {1, 0, 0, -1}, {0.5, 0, 0, 1}})
+			// incl. an axis swap and a shear whose determinant and diagonal product differ in sign
+			a := rng.Pick(r, [][4]float64{{1, 0, 0, 1}, {0, -1, 1, 0}, {1, 0, 0, -1}, {0.5, 0, 0, 1}, {0, 1, 1, 0}, {0.5, 1, 0.5, 0.5}, {0.5, -0.75, 0.75, 0.5}})
 			m := canvas.Matrix{{a[0], a[1], cx}, {a[2], a[3], cy}}
 			segs, err := pd.Decode(p.Data())
 			if err == nil {
